@@ -68,7 +68,7 @@ check('C01',
       'z3 acceptance-equivalence of introspected catalogs of the evolved vs freshly created database; sat models replayed on real SQLite', category='translation_validation', design_ref='5.1')
 
 check('C02',
-      'Translation validation of the SQL emitted by the real generator: for every enumerated program the (statement, params) list is interpreted by vlib/sqlsmt.py over tables whose every cell is a z3 variable (value + NULL flag, 2 rows per table) and z3 decides whether any content makes a surviving column differ from its start value, an added column differ from its declared initial (NULL if none), a null->non-null change differ from coalesce(old, initial), a surviving table lose its rows, or a NULL reach a NOT NULL column. The expected cells are computed independently from the mutation list on model specs. Every sat model is replayed on real SQLite.',
+      'Translation validation of the SQL emitted by the real generator: for every enumerated program the (statement, params) list is interpreted by vlib/sqlsmt.py over tables whose every cell is a z3 variable (value + NULL flag, 2 rows per table) and z3 decides whether any content makes a surviving column differ from its start value, an added column differ from its declared initial (NULL if none), a null->non-null change differ from coalesce(old, initial), a surviving table lose its rows, or a NULL reach a NOT NULL column. The expected cells are computed independently from the mutation list on model specs. Every sat model is replayed on real SQLite, and for every program with an unsat answer the translation itself is validated by pushing one fixed concrete database (NULLs in row 0, distinct values in row 1) through real SQLite and through the SMT interpretation (all final cells must agree; a disagreement makes the program unsupported).',
       'The quantifier over programs is enumerated; values are integers with strings mapped injectively (type conversions and parameter quoting are exercised only by the replay). Statements outside the modelled subset make the program "unsupported", never a violation. Trusted: z3, vlib/sqlsmt.py, the reference column tracking in vlib/e2.py.',
       'z3 over the SMT semantics of the emitted INSERT..SELECT/UPDATE/ALTER statements with symbolic table contents; sat models replayed on real SQLite', category='translation_validation', design_ref='5.2')
 
